@@ -75,5 +75,9 @@ ExecLive == (S.rt.sig = "sent" /\ S.rt.pc # "none") ~> (S.rt.pc = "returned")
 ReachStopWork == ~(\E s \in Sups : S.sup[s].hnd = "returned" /\ Cardinality(S.need[s] \cap Acts) >= 1
                                    /\ \E c \in S.need[s] \cap Sups : TRUE)
 ReachExecWork == ~(S.rt.pc = "returned" /\ Cardinality(S.need[RT] \cap Acts) >= 2)
+\* one state showing all of it at once (used by the quick tier: a single run, stops at the witness)
+ReachAll == ~(/\ S.rt.pc = "returned" /\ Cardinality(S.need[RT] \cap Acts) >= 1
+              /\ \E s \in Sups : S.sup[s].hnd = "returned" /\ S.need[s] \cap Acts # {} /\ S.need[s] \cap Sups # {}
+              /\ \A a \in Acts : S.act[a].pc = "done")
 ReachEarly    == ~(\E a \in Acts : S.act[a].pc = "done" /\ S.sup[S.act[a].par].st = "select")
 =============================================================================
